@@ -8,6 +8,7 @@ import ChythonModel.Proofs.C09Faithful
 import ChythonModel.Proofs.C09Top
 import ChythonModel.Proofs.C09Final
 import ChythonModel.Proofs.C09Scratch
+import ChythonModel.Proofs.C09ArraysTop
 /-!
 # C09 — compiled (bit-mask) matcher ≡ reference matcher: property theorems
 
@@ -416,6 +417,115 @@ example : cythonPath exQ exM [[1, 2, 3]] none true = pythonPath exQ exM [[1, 2, 
   ⟨cython_search_eq_python_search exQ exM [[1, 2, 3]] none true exHyps.1 exHyps.2.1 exHyps.2.2.1 exHyps.2.2.2.1 exHyps.2.2.2.2 exSmall exPairs,
    by decide⟩
 
+
+/-! ## memory safety of the matcher's bookkeeping arrays
+
+`Model/C09Arrays.lean` is the `.pyx` matcher with a guard in front of every access to `path`, `stack_index`, `stack_depth`, `matched`
+and `closures`, comparing the index with the element count `get_mapping` allocates (`Gen/C09Alloc.lean`, regenerated from the
+`PyMem_Malloc` / `memset` expressions of the `.pyx`). The driver runs this machine (`cythonPathA`, `getMappingA`). -/
+
+open ChythonModel.Gen.C09Alloc in
+/-- the allocated element counts, exactly as the `.pyx` computes them, are large enough for `qn` query atoms and `mn` molecule atoms:
+    `path` holds `qn - 1` entries, `stack_index` / `stack_depth` one batch of distinct atoms per query depth (`qn * mn`), `matched` and
+    `closures` one slot per atom, both zero-filled over exactly the allocation. (With the `2 * mn` stack of before repo commit e44243a
+    this is false: `Findings/C09.lean: old_stack_size_overflows`.) -/
+theorem allocation_sizes_suffice (qn mn : Nat) : AllocOK (allocOf qn mn) qn mn := allocOf_ok qn mn
+
+open ChythonModel.Gen.C09Alloc in
+/-- **stack pointer bound**: waiting entries are pairwise distinct `(atom, depth)` pairs, deeper ones on top, atoms below `mn`,
+    depths at most `qdec` (`StackOK`, the invariant of the loop) — so there are never more of them than `stack_index` and
+    `stack_depth` have elements -/
+theorem stack_pointer_bound (mn qdec : Nat) (stack : List (Nat × Nat)) (h : StackOK mn qdec stack) :
+    stack.length ≤ allocStackIndex (qdec + 1) mn ∧ stack.length ≤ allocStackDepth (qdec + 1) mn := by
+  have := stack_length_le mn qdec stack h
+  exact ⟨by simpa only [allocStackIndex] using this, by simpa only [allocStackDepth] using this⟩
+
+open ChythonModel.Gen.C09Alloc in
+/-- **`compiled_matcher_memory_safe`**: on every structure buffer whose bond rows name distinct atoms of the buffer (`BufWF`), for every
+    query buffer and scope, the matcher with its arrays at the allocated sizes behaves like the matcher without bounds (`Agrees`):
+    it yields the same mappings and its stack pointer never exceeds the element count of `stack_index`; when it stops without
+    result it is because the unguarded matcher does (a read outside a *buffer*: `Fault.range`, or the model's recursion budget:
+    `Fault.fuel`) — never `Fault.oob` / `Fault.uninit`.
+    Every guard covers: the stack writes, `path[path_size]`, `matched[…]` reads and writes, `closures[…]` reads and writes, the memsets. -/
+theorem compiled_matcher_memory_safe (m : CMol) (q : CQuery) (scope : List Bool) (hwf : BufWF m) :
+    Agrees (allocStackIndex q.atoms.length m.atoms.length)
+      (getMappingA (allocOf q.atoms.length m.atoms.length) m q scope) (getMappingCS m q scope) := by
+  have := getMappingA_agrees (allocOf q.atoms.length m.atoms.length) m q scope hwf (allocOf_ok _ _)
+  simpa only [allocStackIndex] using this
+
+/-- the same, spelled out: no access outside an allocation, no read of memory that was not zero-filled -/
+theorem compiled_matcher_never_out_of_bounds (m : CMol) (q : CQuery) (scope : List Bool) (hwf : BufWF m) (f : Fault)
+    (h : getMappingA (allocOf q.atoms.length m.atoms.length) m q scope = .error f) : f = .range ∨ f = .fuel := by
+  have ha := compiled_matcher_memory_safe m q scope hwf
+  rw [h] at ha
+  unfold Agrees at ha
+  cases f with
+  | range => exact Or.inl rfl
+  | fuel => exact Or.inr rfl
+  | oob a i n => cases hS : getMappingCS m q scope <;> rw [hS] at ha <;> exact ha.elim
+  | uninit a => cases hS : getMappingCS m q scope <;> rw [hS] at ha <;> exact ha.elim
+
+/-- what `_cython_compiled_structure` returns for a molecule in the shape `MolOK` is such a buffer -/
+theorem encoder_output_rows_wellformed (m : LMol) (cm : CMol) (hm : MolOK m) (h : encStructure m = .ok cm) : BufWF cm :=
+  bufWF_of_enc m cm hm h
+
+/-- hence the accelerated path with guarded arrays (what the driver runs) is the accelerated path of the equivalence theorems, for
+    every query, target-component list, scope and filter setting — no hypothesis on the query at all -/
+theorem guarded_path_is_accelerated_path (q : LQuery) (m : LMol) (tComps : List (List Nat)) (scope : Option (List Nat)) (autoF : Bool)
+    (hm : MolOK m) : cythonPathA q m tComps scope autoF = cythonPath q m tComps scope autoF :=
+  cythonPathA_eq_cythonPath q m tComps scope autoF hm
+
+/-- … and on the documented domain it returns what the reference matcher returns -/
+theorem guarded_search_eq_python_search (q : LQuery) (m : LMol) (tComps : List (List Nat)) (scope : Option (List Nat)) (autoF : Bool)
+    (hm : MolOK m) (hms : MolSmall m) (hq : QueryOK q) (hqwf : q.graph.WF = true) (hqne : q.atoms ≠ [])
+    (hqs : ∀ comps cl, Iso.compileQuery q.graph = some (comps, cl) → QuerySmall q cl)
+    (hpairs : ∀ p ∈ q.atoms, ∀ r ∈ m.atoms, NoHeavyClash p.2 r.2 ∧ HKnown p.2 r.2) :
+    cythonPathA q m tComps scope autoF = pythonPath q m tComps scope autoF := by
+  rw [cythonPathA_eq_cythonPath q m tComps scope autoF hm]
+  exact cythonPath_eq_pythonPath_total q m tComps scope autoF hm hms hq hqwf hqne hqs hpairs
+
+/-- **`compiled_matcher_returns_normally`** (total correctness of the bookkeeping): on a structure buffer whose atoms all have a bond
+    row inside the buffer naming distinct atoms of the buffer (`BufWF`, `RowsOK`), a non-empty query buffer whose parent and
+    closure-partner indices point to earlier steps and whose closure rows lie inside the buffer (`QBufWF`), and a scope array covering
+    the atoms, `get_mapping` with its arrays at the allocated sizes returns normally: no access outside an allocation (`Fault.oob`),
+    no read of memory that was not zero-filled (`Fault.uninit`), no read outside a buffer or beyond the filled part of `path`
+    (`Fault.range`: `path[q_atom.back]`, `path[j_bond.index]`, `path[i]` / `query.atoms[i]` / `molecule.atoms[path[i]]` of the yielded
+    mapping — the mapping index bound), and the recursion budget `fuelC` of the model is never exhausted (each step lowers the
+    potential `Σ (atoms + 1) ^ (query atoms − depth)` of the waiting entries) -/
+theorem compiled_matcher_returns_normally (m : CMol) (q : CQuery) (scope : List Bool) (hwf : BufWF m) (hrows : RowsOK m)
+    (hq : QBufWF q) (hq1 : q.atoms ≠ []) (hsc : m.atoms.length ≤ scope.length) :
+    ∃ r, getMappingA (allocOf q.atoms.length m.atoms.length) m q scope = .ok r :=
+  getMappingA_ok m q scope hwf hrows hq hq1 hsc
+
+/-- … and the buffers the two encoders produce (`Ctx`: `MolOK`, `QueryOK`, both encoders succeeded on an accepted linearisation) are
+    such buffers, with the scope array `get_mapping` is called with: the compiled matcher returns normally on every call the
+    accelerated path makes -/
+theorem compiled_matcher_returns_normally_on_encoder_outputs {q : LQuery} {m : LMol} {cl : Iso.Closures} {lq : List Iso.Step}
+    {cm : CMol} {cq : CQuery} (c : Ctx q m cl lq cm cq) (cand : List Nat) :
+    ∃ r, getMappingA (allocOf cq.atoms.length cm.atoms.length) cm cq (scopeArray m cand) = .ok r :=
+  getMappingA_ok_of_ctx c cand
+
+/-- **`closures_counter` bound**: the counter counts recorded neighbours of one bond row, at most the row length, at most the number
+    of atoms (< 2^32 for every buffer the encoder can build: the count field is 32 bits wide) — it cannot wrap -/
+theorem closures_counter_bound (m : CMol) (hwf : BufWF m) (i : Nat) (ca : CAtom) (nb : List CBond) (flags : List Bool) (n : Nat)
+    (ha : m.atoms[i]? = some ca) (hs : slice? m.bonds ca.from_ ca.to_ = some nb) :
+    (hitsOf nb flags n).length ≤ nb.length ∧ nb.length ≤ m.atoms.length :=
+  counter_le m hwf i ca nb flags n ha hs
+
+/-- **no stale scratch read**: every candidate finds `closures[]` all-zero (`scratch_array_is_clean`); after its fill loop every
+    non-zero entry — in particular every `c_bond` the comparison loop reads — is the bond word that this candidate's own fill loop
+    wrote for exactly that atom. (From an array that is not clean the verdict can differ:
+    `Findings/C09.lean: stale_entry_changes_verdict`.) -/
+theorem no_stale_scratch_read (hits : List CBond) (N x c : Nat)
+    (h : (fillScratch (List.replicate N 0) hits)[x]? = some c) (hc : c ≠ 0) : ∃ jb ∈ hits, jb.index = x ∧ jb.bond = c :=
+  fill_read_own hits N x c h hc
+
+/-- the hypotheses are satisfiable: ethanol's buffer exists and is well-formed, and the guarded matcher runs on it -/
+example : ∃ cm, encStructure exM = .ok cm ∧ BufWF cm := by
+  obtain ⟨cm, h⟩ := structure_encoder_total exM exHyps.1 exHyps.2.1
+  exact ⟨cm, h, bufWF_of_enc exM cm exHyps.1 h⟩
+
+example : cythonPathA exQ exM [[1, 2, 3]] none true = .ok [[(1, 2), (2, 3)]] := by decide
 
 /-- the full-strength statement the property text asks for ("every element 1–118", any hydrogen state, any `h` value the query API
     accepts, any ring size): **false** for the current code — `Findings/C09.lean` proves `¬ MaskEqPyEqFull` from four witnesses
